@@ -200,7 +200,10 @@ impl Drop for Park {
                     // switching to another coroutine now would let it run on a "panicking"
                     // thread (its lock guards never poison) and resuming on another worker
                     // would leave both threads' counts wrong for good. Wait as a thread
+                    #[cfg(not(may_verif))]
                     std::thread::yield_now();
+                    #[cfg(may_verif)]
+                    crate::verif::thread::yield_now();
                 } else {
                     yield_now();
                 }
